@@ -19,6 +19,11 @@ type Scenario struct {
 	Index    int          `json:"index"`
 	World    *world.World `json:"world"`
 	Events   []*Event     `json:"events"`
+	// Prelude lists the indices of generated scenarios (same property, tier and
+	// seed) to execute in the same process before this one. Needed only when the
+	// library keeps process-global state, so that a result depends on earlier
+	// requests; empty otherwise.
+	Prelude []int `json:"prelude,omitempty"`
 	// Violation is filled in when the scenario is written as a replay file.
 	Violation *Violation `json:"violation,omitempty"`
 }
